@@ -250,7 +250,8 @@ class CircuitTemplate(AbstractBaseTemplate):
         if edges:
             edges = update_edges(self.edges, edges)
         else:
-            edges = self.edges
+            # the derived template gets its own edge attribute dictionaries (update_edges copies as well)
+            edges = deepcopy(self.edges)
 
         # either create new instance with updates or store updates on current template instance
         if not in_place:
